@@ -45,8 +45,8 @@ PROPS = {
     },
     "C20": {
         "suites": [("ffixed", 300, 3000), ("forest", 150, 3000)],
-        "proved_scope": "for every abstract document d that is well-formed (unique prefixes and attribute names per element; no adjacent text children while consolidation is on) and every store f with pairwise distinct handles below next (any Forest.Inv store, not only the empty one): fixed::Element::xotify and fixed::Document::xotify (the exact call sequence of fixed.rs), and the top-down, bottom-up and right-to-left (prepend / insert_before) construction programs never panic, add exactly one new root that erases to treeOf d (before / after items are siblings of the document element in the given order; namespace nodes, attribute nodes, children in the given order), leave every other tree and the flags unchanged, keep handles distinct; hence all four routes agree (C20_routes_agree) and can be run one after another in one store (C20_routes_compose)",
-        "not_proved": "the parse route (parse of the serialisation equals treeOf d: C01/C02 with the tokenizer contract; checked on the implementation by the ffixed oracle only); Forest.Inv (structural validity) of the resulting store (C04_step; evaluated after every route in the suite); construction programs other than the three given orders (arbitrary linearisations of create / attach); documents that violate the hypothesis (adjacent text is merged, repeated keys update: model and implementation agree on them in the suite, no theorem)",
+        "proved_scope": "for every abstract document d that is well-formed (unique prefixes and attribute names per element; no adjacent text children while consolidation is on) and every store f with pairwise distinct handles below next (any Forest.Inv store, not only the empty one): fixed::Element::xotify and fixed::Document::xotify (the exact call sequence of fixed.rs), and the top-down, bottom-up and right-to-left (prepend / insert_before) construction programs never panic, add exactly one new root that erases to treeOf d (before / after items are siblings of the document element in the given order; namespace nodes, attribute nodes, children in the given order), leave every other tree and the flags unchanged, keep handles distinct; the new tree is structurally valid, so Forest.Inv before gives Forest.Inv after (C20_inv_preserved); hence all four routes agree (C20_routes_agree) and can be run one after another in one store (C20_routes_compose)",
+        "not_proved": "the parse route (parse of the serialisation equals treeOf d: C01/C02 with the tokenizer contract; checked on the implementation by the ffixed oracle only); construction programs other than the three given orders (arbitrary linearisations of create / attach); documents that violate the hypothesis (adjacent text is merged, repeated keys update: model and implementation agree on them in the suite, no theorem)",
         "modelled": EXTERNAL + ["handles are creation-order numbers; interning (add_name_ns / add_prefix / add_namespace) is the identity on ids (C08)"],
         "assumptions": ["store satisfies Forest.Inv", "document well-formed: unique prefixes and attribute names per element; no adjacent text children while text consolidation is on"],
     },
